@@ -5,7 +5,7 @@ From Verif Require Import model.PowerManagerN proofs.MatryoshkaFacts proofs.Powe
 Definition NInv (st : pmn) : Prop := Forall PMinv (n_groups st).
 
 Definition wf_nevent (ev : nevent) : Prop :=
-  match ev with NE _ (PTick _) => False | NE _ e => wf_event e | NTick _ => True end.
+  match ev with NE _ (PTick _) => False | NE _ e => wf_event e | NTick _ => True | NRestart => True end.
 
 Lemma upd_Forall {A} (P : A -> Prop) l k x : Forall P l -> P x -> Forall P (upd l k x).
 Proof.
@@ -46,7 +46,7 @@ Lemma nstep_inv ma1 ma2 st ev :
   NInv st -> wf_nevent ev ->
   let '(st', o) := nstep ma1 ma2 st ev in NInv st' /\ nreq_ok st' o.
 Proof.
-  intros Hinv Hwf. destruct ev as [k e|now]; cbn [nstep].
+  intros Hinv Hwf. destruct ev as [k e|now|]; cbn [nstep].
   - destruct (nth_error (n_groups st) k) as [g|] eqn:Hk; [|split; [assumption|exact I]].
     assert (Hg : PMinv g).
     { unfold NInv in Hinv. rewrite Forall_forall in Hinv. apply Hinv. eapply nth_error_In; eassumption. }
@@ -58,6 +58,7 @@ Proof.
     + cbn. exists g'. split; [eapply upd_nth_same; eassumption|assumption].
   - split; [|exact I]. unfold NInv in *; cbn. rewrite Forall_forall in *. intros x Hx.
     apply in_map_iff in Hx. destruct Hx as (g & <- & Hin). apply tick_pm_inv. auto.
+  - split; [exact Hinv|exact I].
 Qed.
 
 (* all requests along a history, with the group and the state they were sent from *)
@@ -99,11 +100,16 @@ Qed.
 
 Lemma nstep_length ma1 ma2 st ev : length (n_groups (fst (nstep ma1 ma2 st ev))) = length (n_groups st).
 Proof.
-  destruct ev as [k e|now]; cbn [nstep].
+  destruct ev as [k e|now|]; cbn [nstep].
   - destruct (nth_error (n_groups st) k) as [g|]; [|reflexivity].
     destruct (pstep ma1 ma2 (with_pf g (n_pf st)) e) as [[g' r] rep]. cbn. apply upd_length.
   - cbn. apply map_length.
+  - reflexivity.
 Qed.
+
+(* a restart of the actor changes no group at all *)
+Lemma nrestart_keeps_groups ma1 ma2 st : n_groups (fst (nstep ma1 ma2 st NRestart)) = n_groups st.
+Proof. reflexivity. Qed.
 
 (* a timer tick changes no stored target and no bounds, in any group *)
 Lemma ntick_keeps_targets ma1 ma2 st now j g :
